@@ -78,7 +78,7 @@ Proof. intros Hs [H1 H2]. split; [|exact H2]. intros k Hk Hv. apply H1; auto. Qe
 
 Lemma hdr_rel_op o hg hb : hdr_rel [] hg hb -> hdr_rel [] (hdr_op o hg) (hdr_op o hb).
 Proof.
-  intros [H1 H2]. destruct o as [k v|k v|k|c|b]; cbn [hdr_op]; try (split; assumption).
+  intros [H1 H2]. destruct o as [k v|k v|k| |c|b]; cbn [hdr_op]; try (split; assumption).
   - (* Set *) split.
     + intros k' _ Hv. rewrite !hvals_hset. destruct (beq k k'); auto.
     + rewrite !hvals_hset. destruct (beq k H_VARY); [left; reflexivity|exact H2].
@@ -93,7 +93,15 @@ Proof.
   - (* Del *) split.
     + intros k' _ Hv. rewrite !hvals_hdel. destruct (beq k k'); auto.
     + rewrite !hvals_hdel. destruct (beq k H_VARY); [left; reflexivity|exact H2].
+  - (* Clear *) split; [reflexivity|left; reflexivity].
 Qed.
+
+(* informational responses: same codes, headers related *)
+Definition info_rel (a b : list (N * hdr)) : Prop :=
+  Forall2 (fun x y => fst x = fst y /\ hdr_rel [] (snd x) (snd y)) a b.
+
+Lemma info_rel_snoc a b c hg hb : info_rel a b -> hdr_rel [] hg hb -> info_rel (a ++ [(c, hg)]) (b ++ [(c, hb)]).
+Proof. intros H1 H2. apply Forall2_app; [exact H1|]. constructor; [split; [reflexivity|exact H2]|constructor]. Qed.
 
 Lemma hdr_rel_init h0 : hdr_rel [] (hadd h0 H_VARY H_AE) h0.
 Proof.
@@ -112,9 +120,12 @@ Notation rec_step := (rec_step sniff).
 Notation rec_run := (rec_run sniff).
 Notation grw_write := (grw_write sniff ctm).
 Notation grw_write_header := (grw_write_header ctm).
+Notation grw_decide_write_header := (grw_decide_write_header ctm).
 Notation grw_step := (grw_step sniff ctm).
 Notation grw_run := (grw_run sniff ctm).
 Notation is_compressable := (is_compressable ctm).
+
+Ltac rsimp := cbn [g_sel g_fed g_panic g_rec r_wrote r_hdr r_code r_snap r_body r_info].
 
 (* Content-Type: the upstream's, or -- when it has none -- a sniffed one *)
 Definition ct_rel (sg sb : hdr) : Prop :=
@@ -127,9 +138,9 @@ Definition snap_gzip (sg sb : hdr) : Prop :=
   /\ hvals sg H_CE = Some [GZIP] /\ hvals sg H_CL = None
   /\ hget sb H_CE = [] /\ ctm (hget sg H_CT) = true.
 
-(* the simulation: [g] after some calls, [rb] = the bare recorder after the same calls *)
+(* the simulation: [g] after some calls, [rb] = the bare writer after the same calls *)
 Definition sim (g : grw) (rb : rcd) : Prop :=
-  g_panic g = false /\ r_code (g_rec g) = r_code rb /\
+  g_panic g = false /\ r_code (g_rec g) = r_code rb /\ info_rel (r_info (g_rec g)) (r_info rb) /\
   match g_sel g with
   | None => g_fed g = [] /\ r_wrote (g_rec g) = false /\ r_wrote rb = false
             /\ r_body (g_rec g) = [] /\ r_body rb = []
@@ -172,28 +183,26 @@ Proof.
   - left. apply (proj1 H); [intros []|apply CT_ne_VARY].
 Qed.
 
-(* WriteHeader on an undecided writer whose live headers are related *)
+(* a final WriteHeader on an undecided writer whose live headers are related *)
 Lemma sim_decide c fed rg rb :
+  is_1xx c = false ->
   r_wrote rg = false -> r_wrote rb = false -> r_body rg = [] -> r_body rb = [] ->
+  info_rel (r_info rg) (r_info rb) ->
   hdr_rel [H_CT] (r_hdr rg) (r_hdr rb) -> ct_rel (r_hdr rg) (r_hdr rb) -> fed = [] ->
-  sim (grw_write_header c (mkG None fed false rg)) (rec_write_header c rb).
+  sim (grw_decide_write_header c (mkG None fed false rg)) (rec_write_header c rb).
 Proof.
-  intros Hwg Hwb Hbg Hbb Hrel Hct Hfed. unfold Gzip.grw_write_header, rec_write_header.
-  cbn [g_sel g_fed g_panic g_rec]. rewrite Hwb.
-  destruct (is_compressable (r_hdr rg)) eqn:Ec; cbn [g_sel g_fed g_panic g_rec].
-  - unfold rec_upd. cbn [r_wrote r_hdr r_code r_snap r_body]. rewrite Hwg.
-    unfold sim. cbn [g_sel g_fed g_panic g_rec r_wrote r_hdr r_code r_snap r_body].
-    repeat split; auto. + apply (proj1 (decide_gzip _ _ Hrel Hct Ec)).
-    + apply (proj1 (decide_gzip _ _ Hrel Hct Ec)).
-    + apply (decide_gzip _ _ Hrel Hct Ec). + apply (decide_gzip _ _ Hrel Hct Ec).
-    + apply (decide_gzip _ _ Hrel Hct Ec). + apply (decide_gzip _ _ Hrel Hct Ec).
-    + apply (decide_gzip _ _ Hrel Hct Ec).
-  - rewrite Hwg. unfold sim. cbn [g_sel g_fed g_panic g_rec r_wrote r_hdr r_code r_snap r_body].
-    repeat split; auto. + congruence. + apply (proj1 Hrel). + apply (proj2 Hrel).
+  intros Hx Hwg Hwb Hbg Hbb Hi Hrel Hct Hfed. unfold Gzip.grw_decide_write_header, rec_write_header.
+  rsimp. rewrite Hwb, Hx.
+  destruct (is_compressable (r_hdr rg)) eqn:Ec; rsimp.
+  - unfold rec_upd. rsimp. rewrite Hwg. unfold sim. rsimp.
+    pose proof (decide_gzip _ _ Hrel Hct Ec) as D.
+    repeat (split; [first [reflexivity|assumption|congruence]|]). exact D.
+  - rewrite Hwg. unfold sim. rsimp.
+    repeat (split; [first [reflexivity|assumption|congruence]|]). first [assumption|split; assumption].
 Qed.
 
 Lemma rec_write_wrote b r : r_wrote r = true ->
-  rec_write b r = mkR (r_hdr r) true (r_code r) (r_snap r) (r_body r ++ b).
+  rec_write b r = mkR (r_hdr r) true (r_code r) (r_snap r) (r_body r ++ b) (r_info r).
 Proof. intros H. unfold Gzip.rec_write. cbv zeta. rewrite H. rewrite H. reflexivity. Qed.
 
 Lemma rec_write_unwrote b r : r_wrote r = false ->
@@ -203,43 +212,52 @@ Lemma rec_write_unwrote b r : r_wrote r = false ->
                | None => if beq (hget (r_hdr r) H_TE) []
                          then rec_upd (fun h => hset h H_CT (sniff b)) r else r
                | Some _ => r end) in
-  mkR (r_hdr r1) (r_wrote r1) (r_code r1) (r_snap r1) (r_body r1 ++ b).
-Proof. intros H. unfold Gzip.rec_write. cbv zeta. rewrite H. reflexivity. Qed.
+  mkR (r_hdr r1) (r_wrote r1) (r_code r1) (r_snap r1) (r_body r1 ++ b) (r_info r1).
+Proof.
+  intros H. unfold Gzip.rec_write, rec_write_header. cbv zeta. rewrite H.
+  change (is_1xx 200) with false. cbv iota.
+  destruct (hvals (r_hdr r) H_CT); [|destruct (beq (hget (r_hdr r) H_TE) [])];
+    unfold rec_upd; rsimp; rewrite H; reflexivity.
+Qed.
 
 Lemma sim_step o g rb : sim g rb -> sim (grw_step o g) (rec_step o rb).
 Proof.
-  intros (Hp & Hc & H).
-  destruct g as [sel fed pan rg]. cbn [g_sel g_fed g_panic g_rec] in *. subst pan.
-  destruct o as [k v|k v|k|c|b].
-  1-3: (unfold Gzip.grw_step, Gzip.rec_step, sim, rec_upd;
-        cbn [g_sel g_fed g_panic g_rec r_wrote r_hdr r_code r_snap r_body];
-        split; [reflexivity|split; [exact Hc|]];
+  intros (Hp & Hc & Hi & H).
+  destruct g as [sel fed pan rg]. rsimp. cbn [g_sel g_fed g_panic g_rec] in *. subst pan.
+  destruct o as [k v|k v|k| |c|b].
+  1-4: (unfold Gzip.grw_step, Gzip.rec_step, sim, rec_upd; rsimp;
+        split; [reflexivity|split; [exact Hc|split; [exact Hi|]]];
         destruct sel as [[|]|]; try exact H;
         destruct H as (H1 & H2 & H3 & H4 & H5 & H6); repeat split; auto;
         apply (hdr_rel_op _ _ _ H6)).
   - (* WriteHeader *)
-    unfold Gzip.grw_step, Gzip.rec_step. destruct sel as [[|]|].
-    + destruct H as (H1 & H2 & H3 & H4 & H5).
-      unfold Gzip.grw_write_header, rec_write_header, sim.
-      cbn [g_sel g_fed g_panic g_rec]. rewrite H1, H2. cbn [g_sel g_fed g_panic g_rec].
-      repeat split; auto; apply H5.
-    + destruct H as (H1 & H2 & H3 & H4).
-      unfold Gzip.grw_write_header, rec_write_header, sim.
-      cbn [g_sel g_fed g_panic g_rec]. rewrite H1, H2. cbn [g_sel g_fed g_panic g_rec].
-      repeat split; auto; apply H4.
-    + destruct H as (H1 & H2 & H3 & H4 & H5 & H6).
-      destruct (rel_to_plain _ _ H6) as [Ha Hb]. apply sim_decide; auto.
+    unfold Gzip.grw_step, Gzip.rec_step, Gzip.grw_write_header.
+    destruct (is_1xx c) eqn:Ex.
+    + (* informational: passed through, nothing decided *)
+      unfold rec_write_header, sim. rsimp. rewrite Ex.
+      destruct sel as [[|]|].
+      * destruct H as (H1 & H2 & H3). rewrite H1, H2. rsimp. repeat split; auto; apply H3.
+      * destruct H as (H1 & H2 & H3). rewrite H1, H2. rsimp. repeat split; auto; apply H3.
+      * destruct H as (H1 & H2 & H3 & H4 & H5 & H6). rewrite H2, H3. rsimp.
+        repeat split; auto; try apply H6. apply info_rel_snoc; assumption.
+    + destruct sel as [[|]|].
+      * destruct H as (H1 & H2 & H3 & H4 & H5).
+        unfold Gzip.grw_decide_write_header, rec_write_header, sim. rsimp. rewrite H1, H2. rsimp.
+        repeat split; auto; apply H5.
+      * destruct H as (H1 & H2 & H3 & H4).
+        unfold Gzip.grw_decide_write_header, rec_write_header, sim. rsimp. rewrite H1, H2. rsimp.
+        repeat split; auto; apply H4.
+      * destruct H as (H1 & H2 & H3 & H4 & H5 & H6).
+        destruct (rel_to_plain _ _ H6) as [Ha Hb]. apply sim_decide; auto.
   - (* Write *)
     unfold Gzip.grw_step, Gzip.rec_step. destruct sel as [[|]|].
     + destruct H as (H1 & H2 & H3 & H4 & H5).
-      unfold Gzip.grw_write. cbn [g_sel g_fed g_panic g_rec]. rewrite (rec_write_wrote _ _ H2).
-      unfold sim. cbn [g_sel g_fed g_panic g_rec r_wrote r_hdr r_code r_snap r_body].
-      repeat split; auto; try apply H5. rewrite H4. reflexivity.
+      unfold Gzip.grw_write, grw_write_with. rsimp. rewrite (rec_write_wrote _ _ H2).
+      unfold sim. rsimp. repeat split; auto; try apply H5. rewrite H4. reflexivity.
     + destruct H as (H1 & H2 & H3 & H4).
-      unfold Gzip.grw_write. cbn [g_sel g_fed g_panic g_rec].
+      unfold Gzip.grw_write, grw_write_with. rsimp.
       rewrite (rec_write_wrote _ _ H2), (rec_write_wrote _ _ H1).
-      unfold sim. cbn [g_sel g_fed g_panic g_rec r_wrote r_hdr r_code r_snap r_body].
-      repeat split; auto; try apply H4. rewrite H3. reflexivity.
+      unfold sim. rsimp. repeat split; auto; try apply H4. rewrite H3. reflexivity.
     + destruct H as (H1 & H2 & H3 & H4 & H5 & H6).
       (* the live headers just before the implicit WriteHeader(200), on both sides *)
       set (rg' := match hvals (r_hdr rg) H_CT with
@@ -250,7 +268,7 @@ Proof.
                             then rec_upd (fun h => hset h H_CT (sniff b)) rb else rb
                   | Some _ => rb end).
       assert (Hpre : r_wrote rg' = false /\ r_wrote rb' = false /\ r_body rg' = [] /\ r_body rb' = []
-                     /\ r_code rg' = r_code rb'
+                     /\ r_code rg' = r_code rb' /\ info_rel (r_info rg') (r_info rb')
                      /\ hdr_rel [H_CT] (r_hdr rg') (r_hdr rb') /\ ct_rel (r_hdr rg') (r_hdr rb')).
       { assert (Hct : hvals (r_hdr rg) H_CT = hvals (r_hdr rb) H_CT)
           by (apply (proj1 H6); [intros []|apply CT_ne_VARY]).
@@ -259,31 +277,30 @@ Proof.
         - destruct (rel_to_plain _ _ H6) as [Ra Rb].
           repeat (split; [assumption|]); assumption.
         - destruct (beq (hget (r_hdr rb) H_TE) []).
-          + unfold rec_upd. cbn [r_wrote r_hdr r_code r_snap r_body].
+          + unfold rec_upd. rsimp.
             destruct (rel_to_plain _ _ (hdr_rel_op (SetHeader H_CT (sniff b)) _ _ H6)) as [Ra Rb].
             cbn [hdr_op] in Ra, Rb.
             repeat (split; [assumption|]); assumption.
-          + unfold rec_upd. cbn [r_wrote r_hdr r_code r_snap r_body].
+          + unfold rec_upd. rsimp.
             repeat (split; [assumption|]). split; [split|].
             * intros k Hk Hv. rewrite hvals_hset. rewrite beq_false_ne.
               -- apply (proj1 H6); [intros []|exact Hv].
               -- intro E. apply Hk. left. exact E.
             * rewrite hvals_hset, (beq_false_ne H_CT H_VARY CT_ne_VARY). apply (proj2 H6).
             * right. split; [congruence|]. exists b. rewrite hvals_hset, beq_refl. reflexivity. }
-      destruct Hpre as (Pa & Pb & Pc & Pd & Pe & Pf & Pg).
-      pose proof (sim_decide 200 fed rg' rb' Pa Pb Pc Pd Pf Pg H1) as HS.
-      unfold Gzip.grw_write. cbn [g_sel g_fed g_panic g_rec].
+      destruct Hpre as (Pa & Pb & Pc & Pd & Pe & Pi & Pf & Pg).
+      pose proof (sim_decide 200 fed rg' rb' eq_refl Pa Pb Pc Pd Pi Pf Pg H1) as HS.
+      unfold Gzip.grw_write, grw_write_with. rsimp.
       rewrite (rec_write_unwrote b rb H3). cbv zeta. fold rg' rb'.
-      destruct HS as (S1 & S2 & S3).
-      destruct (g_sel (grw_write_header 200 (mkG None fed false rg'))) as [[|]|] eqn:Es.
+      change (Gzip.grw_write_header ctm 200) with (grw_decide_write_header 200).
+      destruct HS as (S1 & S2 & Si & S3).
+      destruct (g_sel (grw_decide_write_header 200 (mkG None fed false rg'))) as [[|]|] eqn:Es.
       * destruct S3 as (T1 & T2 & T3 & T4 & T5).
-        unfold sim. cbn [g_sel g_fed g_panic g_rec r_wrote r_hdr r_code r_snap r_body].
-        repeat split; auto; try apply T5. rewrite T4. reflexivity.
+        unfold sim. rsimp. repeat split; auto; try apply T5. rewrite T4. reflexivity.
       * destruct S3 as (T1 & T2 & T3 & T4).
         rewrite (rec_write_wrote _ _ T1).
-        unfold sim. cbn [g_sel g_fed g_panic g_rec r_wrote r_hdr r_code r_snap r_body].
-        repeat split; auto; try apply T4. rewrite T3. reflexivity.
-      * exfalso. unfold Gzip.grw_write_header in Es. cbn [g_sel g_fed g_panic g_rec] in Es.
+        unfold sim. rsimp. repeat split; auto; try apply T4. rewrite T3. reflexivity.
+      * exfalso. unfold Gzip.grw_decide_write_header in Es. rsimp. cbn [g_sel g_fed g_panic g_rec] in Es.
         destruct (is_compressable (r_hdr rg')); cbn [g_sel] in Es; discriminate.
 Qed.
 
@@ -295,35 +312,36 @@ Qed.
 
 Lemma sim_init h0 : sim (mkG None [] false (rec_new (hadd h0 H_VARY H_AE))) (rec_new h0).
 Proof.
-  unfold sim, rec_new. cbn [g_sel g_fed g_panic g_rec r_wrote r_hdr r_code r_snap r_body].
-  repeat split; try reflexivity; apply hdr_rel_init.
+  unfold sim, rec_new. rsimp.
+  repeat split; try reflexivity; try apply hdr_rel_init. constructor.
 Qed.
 
-(* ---------- the non-accepting path: recorder against recorder ---------- *)
+(* ---------- the non-accepting path: writer against writer ---------- *)
 Definition rsim (ra rb : rcd) : Prop :=
   r_wrote ra = r_wrote rb /\ r_code ra = r_code rb /\ r_body ra = r_body rb /\
+  info_rel (r_info ra) (r_info rb) /\
   if r_wrote ra then hdr_rel [] (r_snap ra) (r_snap rb) else hdr_rel [] (r_hdr ra) (r_hdr rb).
 
 Lemma rsim_step o ra rb : rsim ra rb -> rsim (rec_step o ra) (rec_step o rb).
 Proof.
-  intros (Hw & Hc & Hb & Hh).
-  destruct ra as [ha wa ca sa ba], rb as [hb wb cb sb bb].
-  cbn [r_wrote r_hdr r_code r_snap r_body] in *. subst wb cb bb.
-  destruct o as [k v|k v|k|c|b].
-  1-3: (unfold Gzip.rec_step, rec_upd, rsim; cbn [r_wrote r_hdr r_code r_snap r_body];
+  intros (Hw & Hc & Hb & Hi & Hh).
+  destruct ra as [ha wa ca sa ba ia], rb as [hb wb cb sb bb ib].
+  rsimp. cbn [r_wrote r_hdr r_code r_snap r_body r_info] in *. subst wb cb bb.
+  destruct o as [k v|k v|k| |c|b].
+  1-4: (unfold Gzip.rec_step, rec_upd, rsim; rsimp;
         repeat split; auto; destruct wa; [exact Hh|apply (hdr_rel_op _ _ _ Hh)]).
-  - unfold Gzip.rec_step, rec_write_header, rsim. cbn [r_wrote r_hdr r_code r_snap r_body].
-    destruct wa; cbn [r_wrote r_hdr r_code r_snap r_body]; repeat split; auto; apply Hh.
-  - unfold Gzip.rec_step, Gzip.rec_write, rec_write_header, rec_upd, rsim.
-    cbn [r_wrote r_hdr r_code r_snap r_body].
-    destruct wa; cbn [r_wrote r_hdr r_code r_snap r_body]; [repeat split; auto; apply Hh|].
+  - unfold Gzip.rec_step, rec_write_header, rsim. rsimp.
+    destruct wa; rsimp; [repeat split; auto; apply Hh|].
+    destruct (is_1xx c); rsimp; repeat split; auto; try apply Hh. apply info_rel_snoc; assumption.
+  - unfold Gzip.rec_step, Gzip.rec_write, rec_upd, rsim. rsimp.
+    destruct wa; rsimp; [repeat split; auto; apply Hh|].
     assert (Hct : hvals ha H_CT = hvals hb H_CT) by (apply (proj1 Hh); [intros []|apply CT_ne_VARY]).
     assert (Hte : hget ha H_TE = hget hb H_TE)
       by (apply hget_congr, (proj1 Hh); [intros []|apply TE_ne_VARY]).
     rewrite <- Hct, <- Hte.
-    destruct (hvals ha H_CT); cbn [r_wrote r_hdr r_code r_snap r_body].
+    destruct (hvals ha H_CT); rsimp.
     + repeat split; auto; apply Hh.
-    + destruct (beq (hget ha H_TE) []); cbn [r_wrote r_hdr r_code r_snap r_body].
+    + destruct (beq (hget ha H_TE) []); rsimp.
       * repeat split; auto; apply (hdr_rel_op (SetHeader H_CT (sniff b)) _ _ Hh).
       * repeat split; auto; apply Hh.
 Qed.
@@ -340,11 +358,11 @@ Lemma rec_step_body o r :
 Proof.
   destruct o; unfold Gzip.rec_step, rec_upd, rec_write_header, Gzip.rec_write;
     cbn [r_body]; try (rewrite app_nil_r; reflexivity).
-  - destruct (r_wrote r); cbn [r_body]; rewrite app_nil_r; reflexivity.
+  - destruct (r_wrote r); [|destruct (is_1xx c)]; cbn [r_body]; rewrite app_nil_r; reflexivity.
   - destruct (r_wrote r); cbn [r_body]; [reflexivity|].
-    unfold rec_write_header, rec_upd.
+    unfold rec_upd.
     destruct (hvals (r_hdr r) H_CT); [|destruct (beq (hget (r_hdr r) H_TE) [])];
-      cbn [r_wrote r_body]; destruct (r_wrote r); reflexivity.
+      cbn [r_wrote r_body]; reflexivity.
 Qed.
 
 Lemma rec_run_body ops : forall r, r_body (rec_run ops r) = r_body r ++ written ops.
@@ -356,7 +374,7 @@ Qed.
 
 (* ---------- the final relation between the handler's response and the upstream's ---------- *)
 Definition res_rel (res up : result) : Prop :=
-  o_code res = o_code up /\ o_panic res = false /\
+  o_code res = o_code up /\ o_panic res = false /\ info_rel (o_info res) (o_info up) /\
   match o_fed res with
   | None => o_plain res = o_plain up
             /\ hdr_rel [H_CT] (o_hdr res) (o_hdr up) /\ ct_rel (o_hdr res) (o_hdr up)
@@ -370,17 +388,18 @@ Theorem handler_rel h0 accept ae ops :
   res_rel (handler sniff ctm h0 accept ae ops) (bare sniff h0 ops).
 Proof.
   unfold handler, bare. destruct (accepts_gzip accept ae).
-  - pose proof (sim_run ops _ _ (sim_init h0)) as (Hp & Hc & H).
-    unfold grw_result, rec_result, res_rel. cbn [o_code o_hdr o_plain o_fed o_panic].
+  - pose proof (sim_run ops _ _ (sim_init h0)) as (Hp & Hc & Hi & H).
+    unfold grw_result, rec_result, res_rel. cbn [o_code o_hdr o_plain o_fed o_panic o_info].
     destruct (g_sel (grw_run ops _)) as [[|]|].
     + destruct H as (H1 & H2 & H3 & H4 & H5 & H6 & H7 & H8 & H9 & H10). rewrite H1, H2.
       repeat split; auto; try apply H5.
     + destruct H as (H1 & H2 & H3 & H4 & H5). rewrite H1, H2. repeat split; auto; apply H4.
     + destruct H as (H1 & H2 & H3 & H4 & H5 & H6). rewrite H2, H3.
       destruct (rel_to_plain _ _ H6) as [[Ha Hb] Hd]. rewrite H4, H5. repeat split; auto.
-  - pose proof (rsim_run ops _ _ (conj (eq_refl : r_wrote (rec_new (hadd h0 H_VARY H_AE)) = r_wrote (rec_new h0))
-        (conj eq_refl (conj eq_refl (hdr_rel_init h0))))) as (Hw & Hc & Hb & Hh).
-    unfold rec_result, res_rel. cbn [o_code o_hdr o_plain o_fed o_panic].
+  - assert (R0 : rsim (rec_new (hadd h0 H_VARY H_AE)) (rec_new h0)).
+    { unfold rsim, rec_new. rsimp. repeat split; try reflexivity; try apply hdr_rel_init. constructor. }
+    pose proof (rsim_run ops _ _ R0) as (Hw & Hc & Hb & Hi & Hh).
+    unfold rec_result, res_rel. cbn [o_code o_hdr o_plain o_fed o_panic o_info].
     rewrite <- Hw. destruct (r_wrote (rec_run ops (rec_new (hadd h0 H_VARY H_AE))));
       destruct (rel_to_plain _ _ Hh) as [[Ha Hb'] Hd]; repeat split; auto.
 Qed.
@@ -393,12 +412,12 @@ Lemma decided_step o g s :
   /\ r_snap (g_rec (grw_step o g)) = r_snap (g_rec g).
 Proof.
   intros Hs Hw. destruct g as [sel fed pan rg]. cbn [g_sel g_rec] in *. subst sel.
-  destruct o as [k v|k v|k|c|b]; unfold Gzip.grw_step, rec_upd;
-    cbn [g_sel g_fed g_panic g_rec r_wrote r_hdr r_code r_snap r_body]; auto.
-  - unfold Gzip.grw_write_header, rec_write_header. cbn [g_sel g_fed g_panic g_rec]. rewrite Hw. auto.
-  - unfold Gzip.grw_write. cbn [g_sel g_fed g_panic g_rec].
-    destruct s; cbn [g_sel g_fed g_panic g_rec]; auto.
-    rewrite (rec_write_wrote _ _ Hw). cbn [r_wrote r_hdr r_code r_snap r_body]. auto.
+  destruct o as [k v|k v|k| |c|b]; unfold Gzip.grw_step, rec_upd; rsimp; auto.
+  - unfold Gzip.grw_write_header, Gzip.grw_decide_write_header, rec_write_header. rsimp.
+    destruct (is_1xx c); rsimp; rewrite Hw; auto.
+  - unfold Gzip.grw_write, grw_write_with. rsimp.
+    destruct s; rsimp; auto.
+    rewrite (rec_write_wrote _ _ Hw). rsimp. auto.
 Qed.
 
 Theorem decision_once ops : forall g s,
@@ -413,24 +432,35 @@ Proof.
   destruct (IH _ _ A B) as (E & F & G). rewrite E, F, G, C, D. auto.
 Qed.
 
-(* the first WriteHeader / Write decides (and freezes the recorder) *)
+(* an informational WriteHeader decides nothing and does not finalise the response *)
+Lemma informational_does_not_decide c g : is_1xx c = true ->
+  g_sel (grw_step (WriteHeader c) g) = g_sel g /\ g_fed (grw_step (WriteHeader c) g) = g_fed g
+  /\ r_wrote (g_rec (grw_step (WriteHeader c) g)) = r_wrote (g_rec g)
+  /\ r_hdr (g_rec (grw_step (WriteHeader c) g)) = r_hdr (g_rec g).
+Proof.
+  intros Hx. unfold Gzip.grw_step, Gzip.grw_write_header, rec_write_header. rewrite Hx. rsimp.
+  destruct (r_wrote (g_rec g)) eqn:Ew; rsimp; auto.
+Qed.
+
+(* the first NON-informational WriteHeader, or the first Write, decides (and finalises the header) *)
 Lemma first_call_decides o g :
-  (match o with WriteHeader _ | Write _ => True | _ => False end) ->
+  (match o with WriteHeader c => is_1xx c = false | Write _ => True | _ => False end) ->
   g_sel (grw_step o g) <> None /\ (g_sel g = None -> r_wrote (g_rec g) = false -> r_wrote (g_rec (grw_step o g)) = true).
 Proof.
-  destruct g as [sel fed pan rg]. destruct o as [k v|k v|k|c|b]; intros []; unfold Gzip.grw_step.
-  - unfold Gzip.grw_write_header. cbn [g_sel g_fed g_panic g_rec].
-    destruct sel as [s|]; cbn [g_sel g_rec].
+  destruct g as [sel fed pan rg]. destruct o as [k v|k v|k| |c|b]; intros Ho; try (exfalso; exact Ho); unfold Gzip.grw_step.
+  - unfold Gzip.grw_write_header. rewrite Ho. unfold Gzip.grw_decide_write_header. rsimp.
+    destruct sel as [s|]; rsimp.
     + split; [discriminate|intros; discriminate].
-    + destruct (is_compressable (r_hdr rg)); cbn [g_sel g_rec]; (split; [discriminate|]);
-        intros _ Hw; unfold rec_write_header, rec_upd; cbn [r_wrote]; rewrite Hw; reflexivity.
-  - unfold Gzip.grw_write. cbn [g_sel g_fed g_panic g_rec].
-    destruct sel as [[|]|]; cbn [g_sel g_rec]; try (split; [discriminate|intros; discriminate]).
-    unfold Gzip.grw_write_header. cbn [g_sel g_fed g_panic g_rec].
-    destruct (is_compressable _); cbn [g_sel g_fed g_panic g_rec]; (split; [discriminate|]); intros _ Hw.
-    + unfold rec_write_header, rec_upd. destruct (hvals (r_hdr rg) H_CT); cbn [r_wrote]; rewrite Hw; reflexivity.
+    + destruct (is_compressable (r_hdr rg)); rsimp; (split; [discriminate|]);
+        intros _ Hw; unfold rec_write_header, rec_upd; rsimp; rewrite Hw, Ho; reflexivity.
+  - unfold Gzip.grw_write, grw_write_with. rsimp.
+    destruct sel as [[|]|]; rsimp; try (split; [discriminate|intros; discriminate]).
+    change (Gzip.grw_write_header ctm 200) with (grw_decide_write_header 200).
+    unfold Gzip.grw_decide_write_header. rsimp.
+    destruct (is_compressable _); rsimp; (split; [discriminate|]); intros _ Hw.
+    + unfold rec_write_header, rec_upd. destruct (hvals (r_hdr rg) H_CT); rsimp; rewrite Hw; reflexivity.
     + unfold Gzip.rec_write, rec_write_header, rec_upd.
-      destruct (hvals (r_hdr rg) H_CT); cbn [r_wrote]; rewrite Hw; cbn [r_wrote]; reflexivity.
+      destruct (hvals (r_hdr rg) H_CT); rsimp; rewrite Hw; rsimp; reflexivity.
 Qed.
 
 End Sim.
@@ -454,10 +484,13 @@ Proof. apply (handler_rel sniff ctm h0 accept ae ops). Qed.
 Lemma never_panics : o_panic res = false.
 Proof. apply (handler_rel sniff ctm h0 accept ae ops). Qed.
 
+Lemma informational_preserved : info_rel (o_info res) (o_info up).
+Proof. apply (handler_rel sniff ctm h0 accept ae ops). Qed.
+
 Lemma compressed_only_if f : o_fed res = Some f ->
   accepts_gzip accept ae = true /\ ctm (hget (o_hdr res) H_CT) = true /\ hget (o_hdr up) H_CE = [].
 Proof.
-  intros Hf. pose proof (handler_rel sniff ctm h0 accept ae ops) as (_ & _ & H).
+  intros Hf. pose proof (handler_rel sniff ctm h0 accept ae ops) as (_ & _ & _ & H).
   fold res up in H. rewrite Hf in H. split; [|split; apply H].
   unfold res, handler in Hf. destruct (accepts_gzip accept ae); [reflexivity|].
   unfold rec_result in Hf. cbn [o_fed] in Hf. discriminate.
@@ -466,7 +499,7 @@ Qed.
 Lemma gzip_labelled_no_length f : o_fed res = Some f ->
   hvals (o_hdr res) H_CE = Some [GZIP] /\ hvals (o_hdr res) H_CL = None.
 Proof.
-  intros Hf. pose proof (handler_rel sniff ctm h0 accept ae ops) as (_ & _ & H).
+  intros Hf. pose proof (handler_rel sniff ctm h0 accept ae ops) as (_ & _ & _ & H).
   fold res up in H. rewrite Hf in H. split; apply H.
 Qed.
 
@@ -474,7 +507,7 @@ Lemma gunzip_body_eq_writes (gz : str -> str) (gunzip : str -> option str) f :
   (forall b, gunzip (gz b) = Some b) ->
   o_fed res = Some f -> gunzip (body_of gz res) = Some (written ops) /\ o_plain up = written ops.
 Proof.
-  intros Hgz Hf. pose proof (handler_rel sniff ctm h0 accept ae ops) as (_ & _ & H).
+  intros Hgz Hf. pose proof (handler_rel sniff ctm h0 accept ae ops) as (_ & _ & _ & H).
   fold res up in H. rewrite Hf in H. destruct H as (Hp & Hfu & _).
   unfold body_of. rewrite Hp, Hf. cbn [app]. rewrite Hgz, Hfu, bare_plain. auto.
 Qed.
@@ -483,7 +516,7 @@ Lemma identity_otherwise (gz : str -> str) : o_fed res = None ->
   body_of gz res = written ops
   /\ hdr_rel [H_CT] (o_hdr res) (o_hdr up) /\ ct_rel sniff (o_hdr res) (o_hdr up).
 Proof.
-  intros Hf. pose proof (handler_rel sniff ctm h0 accept ae ops) as (_ & _ & H).
+  intros Hf. pose proof (handler_rel sniff ctm h0 accept ae ops) as (_ & _ & _ & H).
   fold res up in H. rewrite Hf in H. destruct H as (Hp & Hr & Hc).
   unfold body_of. rewrite Hf, app_nil_r, Hp, bare_plain. auto.
 Qed.
@@ -491,7 +524,7 @@ Qed.
 Lemma compressed_headers f : o_fed res = Some f ->
   hdr_rel [H_CT; H_CE; H_CL] (o_hdr res) (o_hdr up) /\ ct_rel sniff (o_hdr res) (o_hdr up).
 Proof.
-  intros Hf. pose proof (handler_rel sniff ctm h0 accept ae ops) as (_ & _ & H).
+  intros Hf. pose proof (handler_rel sniff ctm h0 accept ae ops) as (_ & _ & _ & H).
   fold res up in H. rewrite Hf in H. split; apply H.
 Qed.
 
@@ -515,6 +548,28 @@ Proof.
   exists [bs "gzip;q=0"], [SetHeader H_CT (bs "text/html"); Write (bs "hello")], (bs "hello").
   split; vm_compute; reflexivity.
 Qed.
+
+(* before commit a52f2fd: the upstream's 103 Early Hints (forwarded by httputil.ReverseProxy, which
+   then clears the header map) took the decision from headers that are not the final response's;
+   with an expression that matches the empty content type the final response went out compressed
+   without Content-Encoding: gzip and with the upstream's Content-Length *)
+Definition early_hints_ops : list op :=
+  [SetHeader (bs "Link") (bs "</style.css>; rel=preload"); WriteHeader 103; ClearHeaders;
+   SetHeader H_CT (bs "text/html"); SetHeader H_CL (bs "5"); WriteHeader 200; Write (bs "hello")].
+
+Lemma informational_decides_unrepaired_refuted : forall sniff,
+  let res := handler_unrepaired sniff (fun _ => true) [] [] [bs "gzip"] early_hints_ops in
+  o_fed res = Some (bs "hello") /\ o_code res = 200
+  /\ hvals (o_hdr res) H_CE = None /\ hvals (o_hdr res) H_CL = Some [bs "5"].
+Proof. intros sniff. vm_compute. repeat split; reflexivity. Qed.
+
+(* the repaired code on the same calls: labelled, no length, and the 103 went out first *)
+Example early_hints_repaired : forall sniff,
+  let res := handler sniff (fun _ => true) [] [] [bs "gzip"] early_hints_ops in
+  o_fed res = Some (bs "hello") /\ o_code res = 200
+  /\ hvals (o_hdr res) H_CE = Some [GZIP] /\ hvals (o_hdr res) H_CL = None
+  /\ map fst (o_info res) = [103].
+Proof. intros sniff. vm_compute. repeat split; reflexivity. Qed.
 
 (* non-vacuity: a response that is compressed, one that is not, and requests on the RFC domain *)
 Example compressed_nonvacuous :
